@@ -35,7 +35,12 @@ fn one_run(interp: &mut Interpreter, run: &Value, log: &Rc<RefCell<Vec<String>>>
                         .collect(),
                     _ => Vec::new(),
                 };
-                break json!({"status": "error", "class": c, "message": m, "stack": stack});
+                let location = match &e {
+                    tsrun::JsError::SyntaxError { location, .. } => json!([location.file.clone(), location.line, location.column, location.length]),
+                    tsrun::JsError::TypeError { location: Some(l), .. } => json!([l.file.clone(), l.line, l.column, l.length]),
+                    _ => Value::Null,
+                };
+                break json!({"status": "error", "class": c, "message": m, "stack": stack, "location": location, "text": e.to_string()});
             }
             Ok(StepResult::Continue) => {
                 steps += 1;
